@@ -717,6 +717,9 @@ def cl(xs):
     return "[" + "; ".join(xs) + "]"
 
 
+_L = _LS = None  # last lowering analysis (set by lowering_table, read by report)
+
+
 def lowering_table(repo_int: Path):
     global _L, _LS
     a = Analyzer(repo_int, lowering=True).run()
@@ -796,8 +799,8 @@ def report(repo_int: Path) -> dict:
             "facts": f,
             "lowering_scopes": [{"name": s.name, "kind": s.kind, "pass": s.escapes, "raises": s.raises,
                                  "reads": sorted(s.reads), "guards": sorted(s.guards),
-                                 "fields": [n for n, _, _ in lowering_table.__globals__["_L"].kinds[s.kind][1]]}
-                                for s in lowering_table.__globals__["_LS"]]}
+                                 "fields": [n for n, _, _ in _L.kinds[s.kind][1]]}
+                                for s in _LS]}
 
 
 if __name__ == "__main__":
